@@ -389,6 +389,7 @@ CHECKS["C09"] = {
     "nontrivial_floor": 500,
     "units": [
         {"name": "wiring-setters", "run": "^TestC09Wiring$", "kind": "plain"},
+        {"name": "hijack-after-panic", "run": "^TestC09HijackAfterPanic$", "kind": "plain"},
         {"name": "sense-disconnect", "run": "^TestC09SenseDisconnect$", "kind": "plain", "race": True},
         {"name": "preread-window", "run": "^TestC09PreReadWindow$", "kind": "rapid", "checks": {"quick": 60, "thorough": 600}, "shards": {"quick": 2, "thorough": 8}},
         {"name": "context", "run": "^TestC09Context$", "kind": "rapid", "checks": {"quick": 4000, "thorough": 160000}, "shards": {"quick": 8, "thorough": 16}},
